@@ -14,6 +14,9 @@ PID = "C19"
 _G = {}
 KINDS = ("single", "fast", "missing_field", "out_of_range", "unknown_pgn", "bad_lookup_name")
 SENDERS = ("ebyte", "yacht", "waveshare", "actisense")
+WRITE_ERRORS = (("ConnectionResetError", lambda: ConnectionResetError("write failed")),
+                ("TimeoutError", lambda: TimeoutError(110, "Connection timed out")),
+                ("OSError(EHOSTUNREACH)", lambda: OSError(113, "No route to host")))
 
 
 def make_msg(N, kind, src):
@@ -79,6 +82,11 @@ def scenario(R, N, client_kind, nsend, with_write_error):
                     k = EX().choose(3)
                     tr["werr"] = k
                     script["write_error_at"] = base + k
+                    # what the transport reports: a reset, a time-out (keep-alive expiry), an unreachable host - in write() or in drain()
+                    ek = EX().choose(len(WRITE_ERRORS))
+                    script["write_error_exc"] = WRITE_ERRORS[ek][1]
+                    script["error_in"] = ("write", "drain")[EX().choose(2)]
+                    tr["werr_kind"] = (WRITE_ERRORS[ek][0], script["error_in"])
             return r, aio.FakeWriter(tr["writes"], i, script)
         aio.install(R, open_connection)
         c = aio.make_client(R, client_kind)
@@ -108,7 +116,7 @@ def judge(tr, res, env, N, client_kind, with_write_error):
     if env.livelock:
         return ["event loop starved"]
     if isinstance(res, BaseException):
-        return ["scenario ended with %r" % (res,)]
+        return ["scenario ended with %r%s" % (res, " (write error %r)" % (tr.get("werr_kind"),) if with_write_error and isinstance(tr, dict) else "")]
     problems = []
     ref = encode_ref(N, client_kind, tr["msgs"])
     w0 = [b for cid, b in tr["writes"] if cid == 0][tr["config_writes"]:]
@@ -136,7 +144,7 @@ def judge(tr, res, env, N, client_kind, with_write_error):
                 tr["states"], len(tr["conns"]), tr["final"], tr["kinds"]))
     else:
         if states[:3] != ["CONNECTED", "DISCONNECTED", "CONNECTED"] or len(tr["conns"]) < 2:
-            problems.append("write error at packet %r: notifications %r, %d connection attempt(s)" % (tr["werr"], tr["states"], len(tr["conns"])))
+            problems.append("write error %r at packet %r: notifications %r, %d connection attempt(s)" % (tr.get("werr_kind"), tr["werr"], tr["states"], len(tr["conns"])))
     return problems
 
 
@@ -183,7 +191,7 @@ def run(tier, seed):
     rep.functions = ["ioclient.AsyncIOClient.send", "the clients' _encode_impl", "encoder.encode_ebyte / encode_yacht_devices / encode_usb / _encode_fast_message",
                      "ioclient._update_state / connect (after a write error)"]
     rep.bounds = {"senders": "%d concurrent send() calls" % ns, "message kinds": list(KINDS), "flow control": "every pattern of suspending / non-suspending drain() calls",
-                  "write errors": "at the 1st, 2nd or 3rd packet of a 2-frame + 1-frame pair of messages", "clients": list(SENDERS)}
+                  "write errors": "at the 1st, 2nd or 3rd packet of a 2-frame + 1-frame pair of messages; reported by write() or by the following drain(); as %s" % ", ".join(n_ for n_, _ in WRITE_ERRORS), "clients": list(SENDERS)}
     rep.stubs = ["StreamWriter -> recording stub whose drain() suspension and write failure are chosen by the explorer"]
     rep.outside = ["more than %d concurrent senders" % ns, "messages with more than 2 frames"]
     jobs = [(k, ns, False) for k in SENDERS] + [(k, 2, True) for k in SENDERS if k != "actisense"]
